@@ -304,9 +304,10 @@ def main(argv=None):
     lines.append(f'VIOLATION property={pid} replay={path}')
     print(f'  kind={v["kind"]} mechanism={v.get("mechanism")} '
           f'detail={json.dumps(v["detail"], default=repr)[:600]}')
-  for key, vs in known_hits.items():
-    lines.append(f'KNOWN-FINDING: property={pid} {key}: '
-                 f'{known_keys[key]["description"]} ({len(vs)} witnesses this run)')
+  for key, entry in known_keys.items():
+    vs = known_hits.get(key, [])
+    seen = f'{len(vs)} witnesses this run' if vs else 'not exercised / not observed in this run'
+    lines.append(f'KNOWN-FINDING: property={pid} {key}: {entry["description"]} ({seen})')
 
   # ---- verdict ----------------------------------------------------------------
   required = list(getattr(mod, 'REQUIRED', []))
